@@ -14,8 +14,8 @@ RULE = ('random schemas with schema-wide unique option names, nested single/mult
 
 RE_OPEN = re.compile(r'^( *)([A-Za-z0-9_]+)(?: "(.*)")? \{$')
 RE_CLOSE = re.compile(r'^( *)\}$')
-RE_LIST = re.compile(r'^( *)([A-Za-z0-9_]+) = \{(.*)\}$')
-RE_SCALAR = re.compile(r'^( *)(# )?([A-Za-z0-9_]+)=(.*)$')
+RE_LIST = re.compile(r'^( *)([A-Za-z0-9_]+) ?= ?\{ ?(.*?) ?\}$')
+RE_SCALAR = re.compile(r'^( *)(# ?)?([A-Za-z0-9_]+) ?= ?(.*)$')
 
 
 def name_bit(s):
@@ -264,23 +264,37 @@ def judge(spec, events, death):
         if body != want:
             v.bad('body-differs:%s' % ('own-filter' if loc in filters else 'inherited' if eff_of(loc, filters) is not None else 'nofilter'),
                   'section %s: body in the full print %r differs from cfg_print_indent of that section under the effective filter %r' % (loc, want[:200], body[:200]))
-    # (5) print callbacks
-    want_lines = list(lines)
+    # (5) print callbacks: only the value text of the callback options may change (judged structurally, not by spelling)
     pfs = set(spec['pfs'])
     ncb = 0
-    for e, g in pair:
-        if e['kind'] in ('scalar', 'list') and e['loc'] in pfs:
+    cb_lines = prints['callbacks'].split('\n')
+    if cb_lines and cb_lines[-1] == '':
+        cb_lines.pop()
+    if len(cb_lines) != len(lines):
+        v.bad('callback', 'print with callbacks has %d lines, without %d' % (len(cb_lines), len(lines)))
+    else:
+        special = {}
+        for e, g in pair:
+            if e['kind'] in ('scalar', 'list') and e['loc'] in pfs:
+                special[g['line']] = (e, g)
+        for i, (a, b) in enumerate(zip(lines, cb_lines)):
+            if i not in special:
+                if a != b:
+                    v.bad('callback', 'installing print callbacks changed an unrelated line: %r -> %r' % (a, b))
+                    break
+                continue
+            e, g = special[i]
             ncb += 1
-            ind = ' ' * g['ind']
+            m = (RE_SCALAR if e['kind'] == 'scalar' else RE_LIST).match(b)
             if e['kind'] == 'scalar':
-                want_lines[g['line']] = '%s%s%s=<<%s:0>>' % (ind, '# ' if e['commented'] else '', e['name'], e['name'])
+                want = '<<%s:0>>' % e['name']
+                ok = m and len(m.group(1)) == g['ind'] and bool(m.group(2)) == e['commented'] and m.group(3) == e['name'] and m.group(4) == want
             else:
-                want_lines[g['line']] = '%s%s = {%s}' % (ind, e['name'], ', '.join('<<%s:%d>>' % (e['name'], k) for k in range(e['n'])))
-    want = '\n'.join(want_lines) + ('\n' if want_lines else '')
-    if prints['callbacks'] != want:
-        got_lines = prints['callbacks'].split('\n')
-        diff = [(a, b) for a, b in zip(want_lines, got_lines) if a != b][:2]
-        v.bad('callback', 'print with callbacks differs from the expected text (only the callback options change): %r' % (diff or 'line count'))
+                want = [('<<%s:%d>>' % (e['name'], k)) for k in range(e['n'])]
+                ok = m and len(m.group(1)) == g['ind'] and m.group(2) == e['name'] and [x.strip() for x in m.group(3).split(',') if x.strip()] == want
+            if not ok:
+                v.bad('callback', 'option %s with a print callback is printed as %r; expected its value text to be %r (and nothing else to change)' % (e['name'], b, want))
+                break
     v.notes['callback_options'] = ncb
     v.nontrivial = unset or any(l != '0' for l in filters) or ncb > 0
     return v
